@@ -6,7 +6,9 @@ THEOREMS_TIED = ["Rustic.Props.C15.append_only_no_removal", "Rustic.Props.C15.de
                  "Rustic.Props.C15.expected_rejected_config_agrees", "Rustic.Props.C15.rejected_config_change_keeps_every_guard",
                  "Rustic.Props.C15.handle_flag_is_table_flag", "Rustic.Props.C15.prune_guard_precedes_unindexed_packs",
                  "Rustic.Props.C15.prune_steps_conform_to_table", "Rustic.Props.C15.repair_index_dry_run_issues_nothing",
-                 "Rustic.Props.C15.repair_index_steps_conform_to_table"]
+                 "Rustic.Props.C15.repair_index_steps_conform_to_table",
+                 "Rustic.Props.C15.backup_dry_run_no_mutation_for_every_source", "Rustic.Props.C15.backup_steps_conform_to_table",
+                 "Rustic.Props.C15.backup_hands_every_option_to_archive", "Rustic.Props.C15.every_backup_source_has_effective_dry_twin"]
 
 TRUSTED = [
     "hand-written command table lean/Rustic/Model/CommandTable.lean: WHAT each row may write/remove and where it is refused is read off repository.rs, "
@@ -19,7 +21,9 @@ TRUSTED = [
     "hand-written statement-order model lean/Rustic/Model/CommandSteps.lean of prune_repository (guard, unindexed packs / instant_delete, early index removal, "
     "remainder) and repair_index (per index file, header loop with Indexer::add_with auto-save at the generated constant C15_INDEXER_MAX_COUNT or MAX_AGE, finalize): "
     "read off commands/prune.rs, commands/repair/index.rs, index/indexer.rs; validated by traffic on repositories with unindexed packs and with more than "
-    "MAX_COUNT blobs",
+    "MAX_COUNT blobs; and of backup() (commands/backup.rs: source selection from the `source` argument and `stdin_command`, the options handed to archive() = a clone "
+    "with parent_opts.force for `-` / the caller's options otherwise, archive() running the archiver behind DryRunBackend::new(.., opts.dry_run), backend/dry_run.rs); "
+    "the archiver itself is an arbitrary function in that model; validated by traffic through Repository::backup from a stdin command and from a directory on disk",
     "traffic harness harness/src/c15.rs over harness/src/repo.rs MemBackend (op log of every write_bytes/remove the real commands issue, on the cold AND the hot store) "
     "and OneConfigBackend (single config file)",
     "content addressing: a write under an existing id carries identical bytes (checked by the harness: every pre-existing snapshot/index/pack file of every store is "
@@ -30,6 +34,9 @@ ASSUMPTIONS = [
     "(over the config model Rustic.Config.applyConfigH, tied by C18's apply/seq/seq1 channels and by `c15 hnd`) shows that flag to be the table's; `aox` re-opens "
     "the repository before every command, `hnd` keeps the handle a config change was applied to for the next command (a command consumes its handle: "
     "to_indexed*(self)), so handles that outlive a command are not exercised",
+    "backup source kinds: Repository::archive with the harness' in-memory ReadSource, Repository::backup of a temp directory (LocalSource) and of `-` with "
+    "stdin_command = echo / printf (ChildStdoutSource) are driven; `backup -` WITHOUT a command (StdinSource) reads the process' standard input, which is the "
+    "harness' op stream, and is covered by the model/theorems only (in backup() both stdin forms use the same cloned options)",
     "in-memory backends, no local cache; hot/cold pairs are two recorded in-memory stores (crash/fault interleavings of hot/cold belong to C16)",
     "operations that exist only in the CLI (`forget --prune`, `merge --delete`) are compositions of the library operations in the table; `merge --delete` is "
     "exercised as merge_snapshots followed by delete_snapshots",
@@ -46,7 +53,9 @@ RULE = ("ops from harness/src/c15.rs (VERIF_SEED): ONE-handle histories (`hnd`):
         "command), rejected set_append_only(true) / other options on armed and disarmed handles, accepted off/on changes followed by destructive commands on the "
         "same handle, 120 (thorough 1500) random one-handle histories; then every command token once on a freshly append-only repository holding two snapshots, on four setups (plain, hot/cold, "
         "damaged = every data pack lost so that both snapshots need repair, damaged hot/cold); the allowed path of every destructive command (append-only switched "
-        "off, and switched off and on again); random sequences of 2..7 commands over 46 tokens (backup new/same/dry, forget, prune variants, prune_plan, repair "
+        "off, and switched off and on again); random sequences of 2..7 commands over 62 tokens (backup new/same x dry-run on/off x source kind: "
+        "in-memory ReadSource via Repository::archive, a directory on disk and a stdin command (`-` + stdin_command echo/printf) via Repository::backup; per setup and source "
+        "kind also the fixed line dry.new,new,dry.same,same,restore and a one-handle line with the flag disarmed; forget, prune variants, prune_plan, repair "
         "index/snapshots with and without delete/dry-run/read-all, rewrite snapshots/trees with and without forget/dry-run/tree-changing exclude, merge with and "
         "without deleting the merged snapshots, config changes incl. switching append-only off and on again, key add/remove, copy into, check, restore, restore "
         "planning with its dry-run flag, a batch of ~30 read-only methods, repair hotcold (4 forms), init / init_with_config / init_hot over the existing repository); "
@@ -54,7 +63,7 @@ RULE = ("ops from harness/src/c15.rs (VERIF_SEED): ONE-handle histories (`hnd`):
         "early_delete_index, repack_all, fast_repack, repack_uncompressed, repack_cacheable_only, no_resize, max_unused, max_repack, keep_delete, keep_pack, ignore_snaps): alone, "
         "after a rejected config change on one handle, allowed and re-armed paths, inside random sequences; "
         "every dry-run flag on intact and damaged repositories (`dry`), repair_index dry runs on repositories with more than the indexer's MAX_COUNT blobs (64-byte fixed-size "
-        "chunks; read-all, or every index file lost; plain and hot/cold), and 39 `dryt` scenarios where the NON-dry twin is run afterwards on the same repository and what "
+        "chunks; read-all, or every index file lost; plain and hot/cold), and 50 `dryt` scenarios (11 of them backups from a stdin command / a local directory on plain, hot/cold and damaged repositories) where the NON-dry twin is run afterwards on the same repository and what "
         "it wrote/removed is part of the observation. Non-trivial = every case (each runs real commands against recorded storage); distinct by hash of (op, observation).")
 EXPLANATION = ("Theorems (over the command table, for plain and hot/cold repositories): on an append-only repository no command issues a removal of snapshot/index/pack; "
                "every command that can remove such files is refused before any storage operation; a dry-run flag means no operation at all; along any history of "
@@ -63,13 +72,19 @@ EXPLANATION = ("Theorems (over the command table, for plain and hot/cold reposit
                "set_append_only(false)) is refused in every state and leaves the outcome of every command as it was (rejected_config_change_keeps_every_guard), and the "
                "table's flag is the in-memory flag of the handle in the config model of apply_config (handle_flag_is_table_flag: Err => in-memory config unchanged); the harness' expectations agree with the table; the table classifies exactly the public methods of Repository in "
                "the current source and every dry-run flag of the current source, and every dry-run row has a scenario (also on hot/cold) whose non-dry twin really "
-               "writes/removes. Statement order (Model/CommandSteps.lean): prune_repository on an append-only repository returns AppendOnly with no operation for all options, all sets of "
+               "writes/removes — for backup per drivable source kind (every_backup_source_has_effective_dry_twin). The table's backup row carries the source kind (caller's ReadSource, local "
+               "paths, stdin, stdin command), so all of the above quantifies over it; Model/CommandSteps.lean follows backup() -> archive() -> DryRunBackend: for every source kind, "
+               "every option set and ANY archiver behaviour the options archive() gets are the caller's except parent_opts.force (backup_hands_every_option_to_archive), a dry-run "
+               "backup lets no operation reach the repository (backup_dry_run_no_mutation_for_every_source), without the flag everything the archiver issues does and it conforms to "
+               "the row (backup_steps_conform_to_table); the variant that rebuilds the options for a stdin source from the stdin-relevant fields provably writes in dry-run mode for "
+               "stdin / stdin command only (fresh_stdin_options_write_in_dry_run). Statement order (Model/CommandSteps.lean): prune_repository on an append-only repository returns AppendOnly with no operation for all options, all sets of "
                "unindexed packs and all plans (the guard precedes the unindexed-pack block; the variant with the guard below it provably removes them), a dry-run repair_index issues "
                "nothing for all index files / packs / blob counts / indexer-age patterns (the variant guarding only finalize provably writes at MAX_COUNT blobs), and both functions conform "
                "to their table rows. Correspondence: result and kinds of storage operations of the real commands equal the table's, on both stores of hot/cold pairs; "
                "a refused config change leaves the handle's in-memory config as it was (`hnd`/`aox`: observed through repo.config() after every refused apply_config); "
                "oracles: pre-existing protected files byte-identical in every store after every command on an append-only repository, refused command => empty op log, "
-               "dry-run => every store byte-identical, read-only methods => empty op log.")
+               "dry-run => every store byte-identical, read-only methods => empty op log, a non-dry Repository::backup from a stdin command / a directory returns a stored snapshot "
+               "that reads back to exactly the command's output / the directory's file contents.")
 
 
 def nontrivial(op, obs):
